@@ -869,6 +869,12 @@ func (db *DB) readWALPageOffsets(f *os.File) (_ map[uint32]int64, lastCommit uin
 		return nil, 0, nil
 	}
 
+	// So does a WAL with another page size than the database's - in particular
+	// one next to a database file that holds no page yet, which SQLite deletes.
+	if r.PageSize() != db.pageSize {
+		return nil, 0, nil
+	}
+
 	// Read the offset of the last version of each page in the WAL.
 	offsets := make(map[uint32]int64)
 	txOffsets := make(map[uint32]int64)
